@@ -14,6 +14,9 @@ EXTENDS MQTTWire
 (***************************************************************************)
 (* the outcome WriteTo owes: offered = concatenation of all Write calls,    *)
 (* calls = their <<len, accepted, error>> log                               *)
+WithinOneFrame(offered) ==
+  \/ Len(offered) < 2
+  \/ LET rl == VBIRead(Tail(offered)) IN rl.kind # "value" \/ Len(offered) <= 1 + rl.width + rl.val
 WriteOutcomeOK(t, offered, calls, n, err, strN) ==
   IF t = 0 THEN err # "nil" /\ Len(calls) = 0 /\ n = 0
   ELSE LET nc == Len(calls)
@@ -23,6 +26,8 @@ WriteOutcomeOK(t, offered, calls, n, err, strN) ==
                          IN Sum(nc)
            failed == nc > 0 /\ calls[nc].e # "nil"
        IN /\ nc >= 1
+          /\ \A i \in 1..(nc - 1) : calls[i].e = "nil"        \* nothing more is handed to a writer that has reported an error
+          /\ WithinOneFrame(offered)                         \* ("exactly one frame and nothing else", also when the write fails)
           /\ IF failed THEN err = calls[nc].e /\ n = accepted
              ELSE /\ err = "nil" /\ Framed(offered) /\ n = Len(offered) /\ n = accepted
                   /\ (strN >= 0 => strN = n)
